@@ -195,8 +195,11 @@ def _mk(ctx, lib, sty, bodies):
     # writer pushes exactly u8::from(*self); reader consumes src[0], returns src[1..]
     S = Sites(lib, wb)
     pushes = S.keyed(lambda k: k == "alloc::vec::Vec::push")
-    froms = [s for s in S.calls if s["c"].body_path == to_u8.path]
-    ok = len(pushes) == 1 and len(froms) == 1 and m(Par(2), pushes[0]["args"][0]) and len(S.calls) == 2
+    # u8::from(*self) or (*self).into() — the blanket Into<u8> for MatchKind is that same From impl
+    froms = [s for s in S.calls if s["c"].body_path == to_u8.path or
+             (core.callee_base(s["key"]) == "core::convert::Into::into" and s["c"].targ_s(0) == "MatchKind" and s["c"].targ_s(1) == "u8")]
+    ok = len(pushes) == 1 and len(froms) == 1 and m(Par(2), pushes[0]["args"][0]) and len(S.calls) == 2 and \
+        m(Par(1), froms[0]["args"][0]) and m(Par(1), pushes[0]["args"][1])
     ctx.check(ok, "SER-MK", wb, "writer-one-byte", wb.span, "writer must push exactly u8::from(*self)")
     RS = Sites(lib, rb)
     froms = [s for s in RS.calls if s["c"].body_path == from_u8.path]
